@@ -359,6 +359,23 @@ Proof.
   vm_compute. intuition congruence.
 Qed.
 
+(** * the anchor in mask.go: the table reads of next.go *)
+From Low Require Import Model.BitmapMask Proofs.NextMask.
+
+(** [RMask[i & 63]] and [MaskUpto[end & 63]] read from the tables filled by [initMasks] (Model/BitmapMask.v, uint64
+    arithmetic written out) never panic and are the closed forms Model/BitmapNext.v writes for them *)
+Theorem C13_mask_reads : forall x,
+  nthZ (tRMask initMasks) (Z.land x 63) = Some (RMask (Z.land x 63)) /\
+  nthZ (tMaskUpto initMasks) (Z.land x 63) = Some (MaskUpto (Z.land x 63)).
+Proof. exact next_mask_reads. Qed.
+Print Assumptions C13_mask_reads.
+
+Example C13_mask_reads_nonvacuous :
+  nthZ (tRMask initMasks) (Z.land 127 63) = Some (2^64 - 2^63) /\
+  nthZ (tMaskUpto initMasks) (Z.land (-1) 63) = Some (2^64 - 1) /\
+  nthZ (tMaskUpto initMasks) 64 = None.
+Proof. vm_compute. intuition congruence. Qed.
+
 (** * the protocol operations of ./check C13 against the theorems above *)
 From Coq Require String.
 From Low Require Import Lib.Val Run.C13 Proofs.NextRunProofs.
